@@ -3,7 +3,7 @@
 //! the reference model.
 use crate::eng::{Cfg, Eng, ErrClass, Out};
 use crate::model::{Expect, Model, Tx, agrees, show_expect};
-use crate::stmt::{Event, Stmt};
+use crate::stmt::{Event, Probe, Stmt, Val};
 use crate::util;
 use serde::{Deserialize, Serialize};
 use std::collections::BTreeMap;
@@ -396,6 +396,7 @@ impl Sim {
                 Ok(())
             }
             Event::Check => self.check_state(i),
+            Event::Probe(pr) => self.probe(i, pr),
             Event::TxnBurst(n) => {
                 for j in 0..*n {
                     let k = 1_000_000 + j;
@@ -424,6 +425,113 @@ impl Sim {
             self.model.abort(tx);
             self.stats.bump("session_drops");
         }
+    }
+
+    /// C06: one logical query in several spellings that force different plans.
+    fn probe(&mut self, i: usize, pr: &Probe) -> Result<(), Violation> {
+        let tx = self.model.begin();
+        let col_of = |m: &Model, t: &str, c: &str| -> Option<(usize, usize)> {
+            let ti = m.find_table(tx, t)?;
+            let ci = m.tables[ti].col(c)?;
+            Some((ti, ci))
+        };
+        let (variants, want): (Vec<String>, Vec<Vec<String>>) = match pr {
+            Probe::Point { table, col, v } => {
+                let Some((ti, ci)) = col_of(&self.model, table, col) else {
+                    self.model.abort(tx);
+                    return Ok(());
+                };
+                let mut want: Vec<Vec<String>> = self.model.visible_rows(tx, ti).into_iter().filter(|(_, r)| r[ci] == Val::I(*v)).map(|(_, r)| r.iter().map(|x| x.render()).collect()).collect();
+                want.sort();
+                (
+                    vec![
+                        format!("SELECT * FROM {table} WHERE {col} = {v}"),
+                        format!("SELECT * FROM {table} WHERE {v} = {col}"),
+                        format!("SELECT * FROM {table} WHERE {col} + 0 = {v}"),
+                        format!("SELECT * FROM {table} WHERE {col} >= {v} AND {col} <= {v}"),
+                        format!("SELECT * FROM {table} WHERE {v} <= {col} AND {v} >= {col}"),
+                    ],
+                    want,
+                )
+            }
+            Probe::Range { table, col, lo, hi } => {
+                let Some((ti, ci)) = col_of(&self.model, table, col) else {
+                    self.model.abort(tx);
+                    return Ok(());
+                };
+                let mut want: Vec<Vec<String>> = self
+                    .model
+                    .visible_rows(tx, ti)
+                    .into_iter()
+                    .filter(|(_, r)| matches!(&r[ci], Val::I(x) if x >= lo && x <= hi))
+                    .map(|(_, r)| r.iter().map(|x| x.render()).collect())
+                    .collect();
+                want.sort();
+                (
+                    vec![
+                        format!("SELECT * FROM {table} WHERE {col} >= {lo} AND {col} <= {hi}"),
+                        format!("SELECT * FROM {table} WHERE {lo} <= {col} AND {hi} >= {col}"),
+                        format!("SELECT * FROM {table} WHERE {col} + 0 >= {lo} AND {col} + 0 <= {hi}"),
+                        format!("SELECT * FROM {table} WHERE {col} > {} AND {col} < {}", lo - 1, hi + 1),
+                        format!("SELECT * FROM {table} WHERE {} < {col} AND {} > {col}", lo - 1, hi + 1),
+                        format!("SELECT * FROM {table} WHERE {col} BETWEEN {lo} AND {hi}"),
+                    ],
+                    want,
+                )
+            }
+            Probe::Join { left, right, lcol, rcol } => {
+                let (Some((li, lc)), Some((ri, rc))) = (col_of(&self.model, left, lcol), col_of(&self.model, right, rcol)) else {
+                    self.model.abort(tx);
+                    return Ok(());
+                };
+                let lid = self.model.tables[li].col("id").unwrap_or(0);
+                let rid = self.model.tables[ri].col("id").unwrap_or(0);
+                let lrows = self.model.visible_rows(tx, li);
+                let rrows = self.model.visible_rows(tx, ri);
+                let mut want = vec![];
+                for (_, l) in &lrows {
+                    for (_, r) in &rrows {
+                        if !l[lc].is_null() && l[lc] == r[rc] {
+                            want.push(vec![l[lid].render(), r[rid].render()]);
+                        }
+                    }
+                }
+                want.sort();
+                (
+                    vec![
+                        format!("SELECT {left}.id, {right}.id FROM {left} JOIN {right} ON {left}.{lcol} = {right}.{rcol}"),
+                        format!("SELECT {left}.id, {right}.id FROM {left} JOIN {right} ON {left}.{lcol} + 0 = {right}.{rcol}"),
+                        format!("SELECT {left}.id, {right}.id FROM {left} JOIN {right} ON {left}.{lcol} = {right}.{rcol} WHERE {left}.id = {left}.id"),
+                    ],
+                    want,
+                )
+            }
+        };
+        self.model.abort(tx);
+        self.stats.bump("plan_families");
+        let mut plans = std::collections::BTreeSet::new();
+        for (n, sql) in variants.iter().enumerate() {
+            let out = self.eng.exec(sql);
+            self.stats.log(format!("{i} probe#{n} {sql} => {}", outcome_line(&out)));
+            if let Ok(plan) = self.eng.explain(sql) {
+                let ops: Vec<&str> = ["IndexScan", "SeqScan", "MergeJoin", "NestedLoop", "HashJoin", "Filter", "Sort"].into_iter().filter(|o| plan.contains(o)).collect();
+                plans.insert(ops.join("+"));
+            }
+            match &out {
+                Out::Rows(got) if *got == want => {}
+                o => {
+                    return Err(self.viol(
+                        "O-plan",
+                        i,
+                        format!("variant #{n} `{sql}` returned {}, the reference answer (and variant #0's specification) is {}", o.short(), Out::Rows(want.clone()).short()),
+                    ));
+                }
+            }
+        }
+        if plans.len() > 1 {
+            self.stats.bump("plan_families_with_different_physical_plans");
+        }
+        Ok(())
     }
 
     /// O-state: every table, read by a fresh transaction, equals the model's committed state.
